@@ -11,4 +11,19 @@ PROPS = {
         "trusted": ["badger, the BLS library, Go runtime; wallet libraries' account resolution"],
         "assumptions": ["as C01"],
     },
+    "C05": {
+        "relation": "Corr.CheckInst.check_safe (implementation signs => model signs) on endpoint x domain-type x admin-list x source-address cases - ties C05_domain_separation to the code",
+        "trusted": ["badger, BLS, Go runtime; prefix4 assumes the domain slice has capacity >= 4 with zero bytes past its length (what protobuf decoding gives; Wire.v / C20)"],
+        "assumptions": ["ruler_fault_ok: an injected ruler answer never says APPROVED"],
+    },
+    "C06": {
+        "relation": "Corr.CheckInst.check_exact (states, signature presence and decoded store equal the model's under the same fault schedule) - ties C06_fail_closed to the code",
+        "trusted": ["faults are injected through wrapping fetcher / checker / unlocker / ruler / account objects and the verifhook store hooks; faults inside libraries are not modelled"],
+        "assumptions": [],
+    },
+    "C09": {
+        "relation": "Corr.CheckInst.check_live (model signs => implementation signs) on advancing histories; check_exact on batch steps of the twin runs; Corr.CheckScatter.scatter_mismatches (util.Scatter extents = Scatter.extents)",
+        "trusted": ["badger, BLS, Go runtime and scheduler"],
+        "assumptions": ["op_wf: histories of well-formed fault-free requests; cfg_wf: every account can sign; the proposal clause is read with the same < 2^63 bound as the attestation clause (DESIGN.md 5 C09)"],
+    },
 }
